@@ -78,20 +78,19 @@ def alphabetLanguages (env : CohEnv) (tbl : LangTable) (chars : List Nat) (ignor
 def findMatch (x : Nat) (b : Array Nat) (flags : Array Bool) (lo hi : Nat) : Option Nat :=
   (List.range hi).find? (fun j => decide (lo ≤ j) && b[j]? == some x && flags[j]? == some false)
 
+/-- one iteration of the matching loop: element `x` at index `i` of `a` -/
+def jaroStep (b : Array Nat) (sr : Nat) (st : List Bool × Array Bool × Nat) (ix : Nat × Nat) :
+    List Bool × Array Bool × Nat :=
+  let lo := if ix.1 > sr then ix.1 - sr else 0
+  let hi := min b.size (ix.1 + sr + 1)
+  match findMatch ix.2 b st.2.1 lo hi with
+  | some j => (true :: st.1, st.2.1.setIfInBounds j true, st.2.2 + 1)
+  | none => (false :: st.1, st.2.1, st.2.2)
+
 /-- the matching pass: flags of `a` (as a list) and `b`, number of matches -/
 def jaroMatch (a : List Nat) (b : Array Nat) : List Bool × Array Bool × Nat :=
-  let aLen := a.length
-  let bLen := b.size
-  let sr := (max aLen bLen) / 2 - 1
-  let step (st : List Bool × Array Bool × Nat) (ix : Nat × Nat) : List Bool × Array Bool × Nat :=
-    let (aFlagsRev, bFlags, m) := st
-    let (i, x) := ix
-    let lo := if i > sr then i - sr else 0
-    let hi := min bLen (i + sr + 1)
-    match findMatch x b bFlags lo hi with
-    | some j => (true :: aFlagsRev, bFlags.setIfInBounds j true, m + 1)
-    | none => (false :: aFlagsRev, bFlags, m)
-  let r := (a.zipIdx.map (fun p => (p.2, p.1))).foldl step ([], Array.replicate bLen false, 0)
+  let sr := (max a.length b.size) / 2 - 1
+  let r := (a.zipIdx.map (fun p => (p.2, p.1))).foldl (jaroStep b sr) ([], Array.replicate b.size false, 0)
   (r.1.reverse, r.2.1, r.2.2)
 
 /-- `strsim::jaro(a, b)` -/
